@@ -46,4 +46,31 @@ theorem readFile_spec {b : Backend} (st : Store α) (vs : List VarDesc)
   rw [readFold_spec st vs hv]
   simp
 
+theorem scanExternal_fold (l : List Bool) (o : Opened) :
+    l.foldl scanExternal o = ⟨o.opened + l.length, o.registered + l.length⟩ := by
+  induction l generalizing o with
+  | nil => rfl
+  | cons x xs ih => simp only [List.foldl_cons, ih, scanExternal, List.length_cons]; congr 1 <;> omega
+
+theorem opened_eq_registered (p : ReadPlan) :
+    (p.externals.foldl scanExternal (openParent p.grouped)).opened =
+    (p.externals.foldl scanExternal (openParent p.grouped)).registered := by
+  rw [scanExternal_fold]
+  unfold openParent
+  split <;> rfl
+
+/-- Processing the variables never changes the number of open datasets (every fetch is a bracket). -/
+theorem readFold_handles {b : Backend} (hb : b.leaky = false) (st : Store α) (vs : List VarDesc) :
+    ∀ (w : World α), (vs.foldl (fun (w : World α) v =>
+      let (w', s) := readVar b st w v
+      { w' with heap := w'.heap ++ [s] }) w).handles = w.handles := by
+  induction vs with
+  | nil => intro w; rfl
+  | cons v vs ih =>
+    intro w
+    simp only [List.foldl_cons]
+    rw [ih]
+    simp only [readVar]
+    exact run_handles hb st _ _
+
 end Cfdm.Lazy
